@@ -19,13 +19,17 @@ META = {
                   'LRU or the cache switched off, with segment rolls and cleans of the cursors partition, pause/resume '
                   'and restart, SetCursor calls that fail with their record left uncommitted in the log, and cleans split in '
                   'their two steps (compaction on a snapshot, then the segment swap) with sets and segment rolls in between, '
+                  'segment rolls by the cleaner tick (empty active segment), 1-3 entries per segment, and - in a second '
+                  'configuration - leader changes of the cursors partition between two servers that each keep their own cache, '
                   'and proves that every fetch returns the last successful set (or a set that overlapped '
                   'it). Simulated deeper behaviours of the same specification are executed on the real server '
                   '(apiServer.SetCursor/FetchCursor, __cursors with 2-entry segments and compaction, LRU shrunk to 2, '
                   'log.Clean(), the partition\'s own requestPause(), Server.Stop()/restart over the same data '
                   'directory) and every recorded result and projected state is re-judged by TLC.',
-    'level_note': 'One-node server: the cursors-partition leader change on a 3-node cluster is not exercised; the '
-                  'purge on becoming leader is exercised through pause/resume (conformance level). Overlap of calls is '
+    'level_note': 'One-node server plus a two-server cluster (the second server a Raft non-voter) in which the cursors '
+                  'partition is replicated and changes its leader between live servers with a caught-up follower and '
+                  'nothing in flight; a leader change with an uncommitted tail, inside a clean window or with a split '
+                  'fetch pending is not exercised. Overlap of calls is '
                   'driven through the verif gate cursors.fetch.scanned (SetCursor calls never overlap each other). '
                   'Bounds: design quick <= 4 sets (2 failed) / 6 steps / 2 faults, thorough <= 4 sets / 7 steps, two splitting clients; '
                   'replayed behaviours <= 16 steps.',
@@ -254,7 +258,7 @@ def run(rep, tier, seed, replay):
         res = core.tlc_check('MC_Cursors.tla', 'MC_Cursors.cfg' if tier == 'quick' else 'MC_Cursors_thorough.cfg',
                              timeout=3000, coverage=(tier == 'thorough'))
         rep.add_design('MC_Cursors', res)
-    num, budget = (1200, 280) if tier == 'quick' else (8000, 4000)
+    num, budget = (1200, 280) if tier == 'quick' else (4000, 1500)
     # pool: free random walks plus the phase-scheduled family (writes, then a clean, then anything)
     free = [b for b in core.tlc_simulate('MC_Cursors.tla', 'Sim_Cursors.cfg', num, 16, seed) if len(b) > 1]
     fam = [b for b in core.tlc_simulate('MC_Cursors.tla', 'Sim_Cursors_fam.cfg', num, 16, seed) if len(b) > 6]
@@ -272,7 +276,7 @@ def run(rep, tier, seed, replay):
     if not os.environ.get('VERIF_C11_NODESIGN'):
         res = core.tlc_check('MC_Cursors.tla', 'MC_Cursors_two.cfg', timeout=1500, coverage=(tier == 'thorough'))
         rep.add_design('MC_Cursors_two', res)
-    num2, budget2 = (500, 90) if tier == 'quick' else (3000, 1000)
+    num2, budget2 = (500, 90) if tier == 'quick' else (2000, 400)
     free2 = [b for b in core.tlc_simulate('MC_Cursors.tla', 'Sim_Cursors_two.cfg', num2, 16, seed) if len(b) > 1]
     fam2 = [b for b in core.tlc_simulate('MC_Cursors.tla', 'Sim_Cursors_hand.cfg', num2, 16, seed) if len(b) > 7]
     sims2 = [b for pair in zip(free2, fam2) for b in pair] + free2[len(fam2):] + fam2[len(free2):]
@@ -301,5 +305,6 @@ def run(rep, tier, seed, replay):
                        'non-trivial = has a set and a fetch and (a set overlapping a split fetch, or a clean / pause / '
                        'restart); distinct by hash of (cache mode, step list)')
     rep.cov['samples'] = behaviours[:2]
-    rep.assumptions += ['SetCursor calls do not overlap each other', 'one-node server (no cursors-partition leader change)',
+    rep.assumptions += ['SetCursor calls do not overlap each other',
+                        'leader changes of the cursors partition happen with a caught-up follower and nothing in flight',
                         'TLC evaluates the TLA+ predicates correctly']
